@@ -140,12 +140,31 @@ func init() {
 			Steps: []string{"M", "MA", "Pb", "Pe", "R"}, Devs: []string{"m1", "p1", "m2", "p2"},
 			Roots: [][]string{{"B0", "M", "Pb", "Pe"}, {"B2", "M", "Pb", "Pe", "B0", "M", "Pb", "Pe", "R"}},
 			MaxB:  3, MaxD: 9, MaxK: 1, MaxR: 1, Deadline: tierDeadline(tier),
-			Note: "oracle: dump(Collection.Snapshot()) == reference model after every step"}
+			Note: "oracle: dump(Collection.Snapshot()) == reference model after every step", Share: 0.9}
 		if tier == "thorough" {
 			sp.MaxB, sp.MaxD, sp.MaxK, sp.MaxR = 4, 13, 2, 2
 		}
 		sp.Check = func(w *World, path []string) []Violation { return w.snapshotOracle("C01") }
 		return sp
 	}
+	// a narrow alphabet (one key: set it, delete it) explored deeper on the fast backings
+	g1Specs["C01deep"] = func(tier string) *G1Spec {
+		sp := g1Specs["C01"](tier)
+		sp.Alpha = []*BatchSpec{{Ops: ops("S:a")}, {Ops: ops("D:a")}}
+		sp.Configs = []Config{
+			{Backing: "none", MinMergePct: 100},
+			{Backing: "map", MinMergePct: 100, CachePersisted: true},
+			{Backing: "map", MinMergePct: 0.01, NoLLInit: true},
+			{Backing: "map", MinMergePct: 100, NoLLInit: true, CachePersisted: true, DeferredSort: true, MaxPre: 3},
+		}
+		sp.Steps = []string{"M", "MA", "Pb", "Pe"}
+		sp.Devs = []string{"m2", "p2"}
+		sp.Roots = [][]string{{"B0", "M", "Pb"}}
+		sp.MaxB, sp.MaxD, sp.MaxK, sp.MaxR = 4, 10, 1, 0
+		sp.Share = 0.1
+		sp.Note += "; deep variant: two-batch alphabet on one key, in-memory and map lower levels, to depth 10"
+		return sp
+	}
+	g1Groups["C01"] = []string{"C01", "C01deep"}
 	engines["C01"] = checkG1
 }
